@@ -15,3 +15,7 @@ def run(ctx, rep):
     misc.rule_dense_stride(mod, rep, patterns=("p?gssvx",))
     from ..rules import more3
     more3.rule_minmax_scan(mod, rep)
+    from ..rules import more6
+    import re as _re
+    more6.rule_precision_family(mod, rep, floor=20, sel=lambda f: _re.search(r"laqgs|gsequ|gssvx|lamch", f.name) is not None)
+    more6.rule_equed_last(mod, rep)
